@@ -5,7 +5,7 @@ CONSTANTS
   MaxPats = 2
   MaxPatLen = 2
   MaxSyms = 3
-  MaxNameLen = 2
+  MaxNameLen = 1
   Discipline = "full"
   DotAll = TRUE
   FindFirst = FALSE
